@@ -103,14 +103,58 @@ func l2FrameOp(c *ctx, f []string) {
 	c.emit(op, args+" ; "+res)
 }
 
+// l2after: a link-level send that FAILS (an interface index that does not exist), then a plain DISCOVER - no relay, no
+// ciaddr, broadcast flag clear - through HandleMsg4: one failed send may not change where later replies go (C15: such a
+// reply is unicast at link level to the client's hardware address and the offered address, port 68).
+//   l2after => <error of the send|sent> ; <peer ip> <port> <l2 flag> | drop
+func l2AfterOp(c *ctx) {
+	op := "l2after"
+	lo, err := net.InterfaceByName("lo")
+	if err != nil {
+		c.emit(op, "skip no-loopback-interface")
+		return
+	}
+	res := watchdog(5*time.Second, func() string {
+		return guard(func() string {
+			bad := *lo
+			bad.Index = 0x7fff0000 + c.rng.Intn(1000)
+			bad.HardwareAddr = net.HardwareAddr{2, 0, 0x5e, 0x10, 0, 1}
+			r, _ := dhcpv4.New(dhcpv4.WithHwAddr(net.HardwareAddr{2, 0, 0, 0, 3, 1}))
+			r.OpCode = dhcpv4.OpcodeBootReply
+			r.UpdateOption(dhcpv4.OptMessageType(dhcpv4.MessageTypeOffer))
+			r.YourIPAddr = net.IPv4(192, 0, 2, 9).To4()
+			first := "sent"
+			if err := server.VerifSendEthernet(bad, r); err != nil {
+				first = "failed"
+			}
+			d, _ := dhcpv4.NewDiscovery(net.HardwareAddr{2, 0, 0, 0, 3, 2})
+			d.Flags = 0
+			caps := handleOn4(nil, 3, d.ToBytes(), 0, &net.UDPAddr{IP: net.IPv4zero.To4(), Port: 68})
+			if len(caps) != 1 {
+				return fmt.Sprintf("%s ; drop%d", first, len(caps))
+			}
+			return fmt.Sprintf("%s ; %s %d %d", first, hx(caps[0].Peer.IP.To4()), caps[0].Peer.Port, b2i(caps[0].L2))
+		})
+	})
+	c.emit(op, res)
+}
+
 func replayL2Frame(c *ctx, ops []string) {
 	for _, op := range ops {
+		if op == "l2after" {
+			l2AfterOp(c)
+			continue
+		}
 		l2FrameOp(c, strings.Fields(op))
 	}
 }
 
 func genL2Frame(c *ctx) {
 	for c.count < c.n {
+		if c.count%97 == 5 {
+			l2AfterOp(c)
+			continue
+		}
 		// a reply as HandleMsg4 would hand it over: OFFER or ACK, any chaddr length, yiaddr zero / a host / a boundary value, siaddr set or not
 		hl := []int{6, 6, 6, 6, 6, 6, 6, 6, 6, 6, 6, 6, 0, 1, 5, 7, 8, 16}[c.rng.Intn(18)]
 		ch := make([]byte, hl)
